@@ -263,8 +263,6 @@ Proof.
   - intros w' H. apply with_use_ts_FI; [apply close_cb_time|apply close_cb_use|exact H].
   - intros w' H. rewrite no_space_eq. eapply FI_neutral; [exact H| | |]; try reflexivity.
     eapply ext_logs; [reflexivity|]. repeat constructor.
-  - intros w' H. eapply FI_neutral; [exact H| | |]; try reflexivity.
-    eapply ext_logs; [reflexivity|]. repeat constructor.
 Qed.
 
 (* global invariant *)
@@ -293,6 +291,9 @@ Proof.
     assert (H2 : FI d (snd (reserve d w0 n))) by (apply reserve_FI; exact H1);
     set (r := reserve d w0 n) in * end.
   destruct (negb (fst r)); [apply H2|]. destruct (w_err (snd r)); [apply H2|].
+  match goal with |- context [trace_recheck d e args ?a ?x] =>
+    destruct (trace_recheck_cases d e args a x) as [Crc|[Crc|(_ & a2 & _ & _ & Crc)]]; rewrite Crc; cbn [fst snd negb] end;
+    [|up; apply tsok_app; split; [apply H2|exact I]|up; apply tsok_app; split; [apply H2|exact I]].
   unfold trace_ser. cbv zeta.
   assert (H3 : FI d (trace_mark d (snd r))).
   { unfold trace_mark. destruct (d_has_clock d && has_member_o (d_eh d) "timestamp") eqn:C; [|exact H2].
@@ -402,7 +403,6 @@ Proof.
   - unfold with_use_ts. up. rewrite open_cb_last. exact H.
   - unfold with_use_ts. up. rewrite close_cb_last. exact H.
   - exact H.
-  - exact H.
 Qed.
 
 Definition rec_ts_is (t : Z) (e : ev) : Prop := match e with ETs 2 v => v = t | _ => True end.
@@ -426,7 +426,11 @@ Proof.
   up. destruct (negb (fst r)).
   { eapply ext_eq_log_r; [|exact E']. reflexivity. }
   destruct (w_err (snd r)); [exact E'|].
-  eapply ext_trans; [exact E'|]. unfold trace_ser. cbv zeta.
+  eapply ext_trans; [exact E'|].
+  match goal with |- context [trace_recheck d e args ?a ?x] =>
+    destruct (trace_recheck_cases d e args a x) as [Crc|[Crc|(_ & a2 & _ & _ & Crc)]]; rewrite Crc; cbn [fst snd negb] end;
+    [|eapply ext_logs; [reflexivity|]; repeat constructor|eapply ext_logs; [reflexivity|]; repeat constructor].
+  unfold trace_ser. cbv zeta.
   assert (B1 : blk (rec_ts_is (c_last_ts (w_c w))) true (snd r) (trace_mark d (snd r))).
   { unfold trace_mark. apply opt_log_blk; [exact A|]. cbn. exact L. }
   eapply ext_trans; [apply B1|].
